@@ -8,9 +8,34 @@ import os
 from vt.monitors import fsmon
 
 
-def build_frame(rows):
+def build_frame(rows, extra=()):
+    """k, x, s from the rows; `extra` names further columns whose values are a function of k (dtypes a file format might not
+    keep: nanosecond / second / timezone-aware timestamps, nullable integers, categoricals, float32, unsigned)."""
+    import numpy as np
     import pandas as pd
-    return pd.DataFrame({'k': [r[0] for r in rows], 'x': [r[1] for r in rows], 's': pd.Series([r[2] for r in rows], dtype='str')})
+    df = pd.DataFrame({'k': [r[0] for r in rows], 'x': [r[1] for r in rows], 's': pd.Series([r[2] for r in rows], dtype='str')})
+    ks = [r[0] for r in rows]
+    base = np.array(['2021-03-04T05:06:07'], dtype='datetime64[s]')[0]
+    for e in extra:
+        if e == 'dt_ns':
+            df[e] = pd.Series(np.array([base + np.timedelta64(k, 'D') for k in ks], dtype='datetime64[ns]'))
+        elif e == 'dt_us':
+            df[e] = pd.Series(np.array([base + np.timedelta64(k, 'h') for k in ks], dtype='datetime64[us]'))
+        elif e == 'dt_s':
+            df[e] = pd.Series(np.array([base + np.timedelta64(k, 'm') for k in ks], dtype='datetime64[s]'))
+        elif e == 'dt_tz':
+            df[e] = pd.Series(np.array([base + np.timedelta64(k, 'D') for k in ks], dtype='datetime64[ns]')).dt.tz_localize('UTC')
+        elif e == 'Int64':
+            df[e] = pd.array([None if k % 3 == 1 else k * 7 for k in ks], dtype='Int64')
+        elif e == 'cat':
+            df[e] = pd.Categorical(['c%d' % (k % 2) for k in ks], categories=['c0', 'c1', 'unused'])
+        elif e == 'float32':
+            df[e] = np.array([k / 4.0 for k in ks], dtype='float32')
+        elif e == 'uint8':
+            df[e] = np.array([k % 200 for k in ks], dtype='uint8')
+        elif e == 'bool':
+            df[e] = [k % 2 == 0 for k in ks]
+    return df
 
 
 def write_bytes(path, data):
@@ -44,10 +69,10 @@ def do_step(t, step, refdir, workdir):
         write_bytes(p, bytes.fromhex(step['actual_hex']))
         t.assertBinaryFileCorrect(p, ref, **kw)
     elif a in ('df_parquet', 'df_csv'):
-        t.assertDataFrameCorrect(build_frame(step['rows']), ref, **kw)
+        t.assertDataFrameCorrect(build_frame(step['rows'], step.get('extra', ())), ref, **kw)
     elif a == 'ondisk':
         p = os.path.join(workdir, 'actual_' + step['ref'])
-        build_frame(step['rows']).to_parquet(p)
+        build_frame(step['rows'], step.get('extra', ())).to_parquet(p)
         t.assertOnDiskDataFrameCorrect(p, ref, **kw)
     else:
         raise ValueError(a)
